@@ -7,7 +7,7 @@ accelerated scan is the naive scan, and reduce the soundness of every fact-drive
 the truth of the fact at real matches (which is property C04).  Oracle N (leg of this property)
 compares the real accelerated find with the naive-scan hook on the engine itself.
 
-Second half (from `acceleration_transparent_skip` on): the candidate finders of runner.go one by one.
+Second half (from `finder_noSearch_sound` on): the candidate finders of runner.go one by one.
 Model/Finders.lean mirrors `findFirstCharDefault` and every helper it dispatches to as executable
 functions of (published facts, input, position); each `finder_*_sound` derives the soundness of one
 finder from the fact it consumes, stated in the form in which C04 delivers it; `finder_default_sound`
@@ -174,25 +174,6 @@ example : condFinder demoC false 5 2 = (true, 3) ∧ condFinder demoC false 5 4 
 
 open RegexVerif.Finders RegexVerif.Lemmas.Finders
 
-/-- **Acceleration is transparent, under what the loop really needs of the finder.**  `Runner.scan`
-    reads a `false` answer of `findFirstChar` as "nothing up to and including the position I was left
-    at" — it bumps from there and asks again — not as "nothing anywhere ahead" (`FinderSound`).  Under
-    this weaker `FinderSkipSound` the scan is still the naive scan.  The anchored branch of
-    `findFirstCharDefault` needs the weaker reading (see `anchored_finder_needs_skip_reading`). -/
-theorem acceleration_transparent_skip (finder : Nat → Bool × Nat) (after : Nat → Nat) (attempt : Nat → Option (Nat × Nat))
-    (rtl : Bool) (n L : Nat)
-    (hS : AttemptShape rtl n attempt) (hF : FinderSkipSound rtl n finder attempt)
-    (hA : AfterSound rtl n after attempt) (hM : MinLenSound rtl n L attempt)
-    (start : Nat) (prevLen : Int) (hstart : start ≤ n) :
-    scan finder after attempt start prevLen rtl n L = (naive attempt start prevLen rtl n).map (Hit.ofSpan rtl) :=
-  scan_eq_naive_skip finder after attempt rtl n L hS hF hA hM start prevLen hstart
-
-/-- `FinderSound` (a `false` answer means no match anywhere ahead) implies `FinderSkipSound`: every
-    theorem proved for the strong reading carries over. -/
-theorem skipSound_of_finderSound (rtl : Bool) (n : Nat) (finder : Nat → Bool × Nat) (attempt : Nat → Option (Nat × Nat))
-    (h : FinderSound rtl n finder attempt) : FinderSkipSound rtl n finder attempt :=
-  finderSkipSound_of_sound rtl n finder attempt h
-
 /-! shared instance: `ab` on "xabab" — successful attempts at 1 and 3 (`demoAttempt` above) -/
 
 def demoText : List Nat := [120, 97, 98, 97, 98]
@@ -220,7 +201,7 @@ theorem finder_anchors_sound (lower : Nat → Nat) (a : Anchors) (bm : Option Bm
     (textstart : Nat) (attempt : Nat → Option (Nat × Nat))
     (hA : AnchorFacts a text textstart attempt)
     (hB : ∀ b, bm = some b → BmFact lower b rtl text attempt) :
-    FinderSkipSound rtl text.length (finderAnchors lower a bm rtl text textstart) attempt := by
+    FinderSound rtl text.length (finderAnchors lower a bm rtl text textstart) attempt := by
   cases rtl
   · exact finderAnchors_ltr lower a bm text textstart attempt hA hB
   · exact finderAnchors_rtl lower a bm text textstart attempt hA hB
@@ -242,24 +223,22 @@ example : finderAnchors id endzAnchors (some endzBm) true endzText 5 5 = (false,
     finderAnchors id endzAnchors (some endzBm) true endzText 5 4 = (true, 4) ∧
     finderAnchors id endzAnchors (some endzBm) true endzText 5 3 = (false, 0) := by decide
 
-/-- **Why `FinderSkipSound`**: for `abc$` right-to-left on "xabc\n" the anchored finder answers
-    `(false, 5)` at the end of the input — the prefix does not end there — although the match ends at
-    4, the second legal `\Z` position.  The strong reading `FinderSound` is therefore false of the
-    real finder, the weak one true; the scan loop bumps to 4 and finds the match.  (A finder that
-    jumped to the stop position on this failure would lose the match: seeded change C15-rtl-endz-bm.) -/
-theorem anchored_finder_needs_skip_reading :
-    ¬ FinderSound true endzText.length (finderAnchors id endzAnchors (some endzBm) true endzText 5) endzAttempt ∧
-    FinderSkipSound true endzText.length (finderAnchors id endzAnchors (some endzBm) true endzText 5) endzAttempt ∧
+/-- **A `false` answer of the anchored finder is local.**  For `abc$` right-to-left on "xabc\n" the
+    finder answers `(false, 5)` at the end of the input — the prefix does not end there — although the
+    match ends at 4, the second legal `\Z` position.  `FinderSound` therefore only lets a `false` answer
+    vouch for the positions up to the one the finder left; the scan loop bumps to 4 and finds the match.
+    (A finder that jumped to the stop position on this failure loses the match: seeded change
+    C15-rtl-endz-bm.) -/
+theorem anchored_false_answer_is_local :
+    finderAnchors id endzAnchors (some endzBm) true endzText 5 5 = (false, 5) ∧ endzAttempt 4 ≠ none ∧
+    FinderSound true endzText.length (finderAnchors id endzAnchors (some endzBm) true endzText 5) endzAttempt ∧
     scan (finderAnchors id endzAnchors (some endzBm) true endzText 5) id endzAttempt 5 (-1) true 5 3 = some ⟨1, 3, 1⟩ := by
-  refine ⟨?_, ?_, by decide⟩
-  · intro h
-    have := (h 5 (by decide)).2.2 (by decide) 4 (by decide)
-    simp [endzAttempt] at this
-  · apply finder_anchors_sound
-    · exact ⟨by simp [endzAnchors], by simp [endzAnchors],
-        by intro _ p hp h; simp [endzAttempt] at h; subst h; right; decide, by simp [endzAnchors]⟩
-    · intro b hb; injection hb with hb; subst hb
-      intro p hp h; simp [endzAttempt] at h; subst h; decide
+  refine ⟨by decide, by decide, ?_, by decide⟩
+  apply finder_anchors_sound
+  · exact ⟨by simp [endzAnchors], by simp [endzAnchors],
+      by intro _ p hp h; simp [endzAttempt] at h; subst h; right; decide, by simp [endzAnchors]⟩
+  · intro b hb; injection hb with hb; subst hb
+    intro p hp h; simp [endzAttempt] at h; subst h; decide
 
 example : endzAttempt 4 ≠ none := by decide
 
@@ -455,7 +434,7 @@ example : finderLiteralAfterLoop id lalLit fdText 2 0 = (true, 0) ∧ finderLite
     the assumption), the finder only skips positions at which the program fails. -/
 theorem finder_default_sound (f : Facts) (text : List Nat) (textstart : Nat) (attempt : Nat → Option (Nat × Nat))
     (h : FactsSound f text textstart attempt) :
-    FinderSkipSound f.rtl text.length (finderDefault f text textstart) attempt :=
+    FinderSound f.rtl text.length (finderDefault f text textstart) attempt :=
   finderDefault_sound f text textstart attempt h
 
 /-- `.ab`: mode `FixedDistanceString_LeftToRight`, "ab" at distance 1, minimum length 3 -/
@@ -490,7 +469,7 @@ theorem findFirstChar_scan_eq_naive (f : Facts) (text : List Nat) (textstart : N
     (start : Nat) (prevLen : Int) (hstart : start ≤ text.length) :
     scan (finderDefault f text textstart) after attempt start prevLen f.rtl text.length f.opts.minLen =
       (naive attempt start prevLen f.rtl text.length).map (Hit.ofSpan f.rtl) :=
-  scan_eq_naive_skip _ after attempt f.rtl text.length f.opts.minLen hS
+  scan_eq_naive _ after attempt f.rtl text.length f.opts.minLen hS
     (finderDefault_sound f text textstart attempt hF) hA hM start prevLen hstart
 
 example : scan (finderDefault demoFacts fdText 0) id fdAttempt 0 (-1) false 6 3 = some ⟨1, 3, 4⟩ := by decide
